@@ -4,3 +4,45 @@
 
 package introspection
 
+import (
+	"github.com/vektah/gqlparser/v2/ast"
+)
+
+// ---- C15: the type reference of an introspection answer is decoded back into the type it encodes ----
+
+// RefString: the type reference (e.g. [Int!]!) that a __Type{kind name ofType} chain encodes, as the
+// GraphQL specification defines the encoding (axioms below). WfRef: the chain is spec compliant.
+func RefString(r *IntrospectionTypeRef) string { panic("ghost") }
+func WfRef(r *IntrospectionTypeRef) bool       { panic("ghost") }
+
+// TString: what (*ast.Type).String returns.
+func TString(t *ast.Type) string { panic("ghost") }
+
+//@ extern github.com/vektah/gqlparser/v2/ast NonNullListType
+//@ ensures result != nil && fresh(result) && TString(result) == "[" + TString(elem) + "]!"
+//@ modifies fresh
+//@ end
+
+//@ extern github.com/vektah/gqlparser/v2/ast ListType
+//@ ensures result != nil && fresh(result) && TString(result) == "[" + TString(elem) + "]"
+//@ modifies fresh
+//@ end
+
+//@ extern github.com/vektah/gqlparser/v2/ast NonNullNamedType
+//@ ensures result != nil && fresh(result) && TString(result) == named + "!"
+//@ modifies fresh
+//@ end
+
+//@ extern github.com/vektah/gqlparser/v2/ast NamedType
+//@ ensures result != nil && fresh(result) && TString(result) == named
+//@ modifies fresh
+//@ end
+
+//@ func parseTypeRef
+//@ props C15
+//@ requires response != nil && WfRef(response)
+//@ assumes[encoding] forallT(r, *IntrospectionTypeRef, r != nil ==> (r.Kind == "NON_NULL" ==> RefString(r) == RefString(r.OfType) + "!") && (r.Kind == "LIST" ==> RefString(r) == "[" + RefString(r.OfType) + "]") && (r.Kind != "NON_NULL" && r.Kind != "LIST" ==> RefString(r) == r.Name))
+//@ assumes[compliant] forallT(r, *IntrospectionTypeRef, r != nil && WfRef(r) ==> ((r.Kind == "NON_NULL" || r.Kind == "LIST") ==> r.OfType != nil && WfRef(r.OfType)) && (r.Kind == "NON_NULL" ==> r.OfType.Kind != "NON_NULL"))
+//@ ensures[inverse] result != nil && TString(result) == RefString(response)
+//@ modifies fresh
+//@ end
